@@ -175,6 +175,15 @@ func init() {
 			// once more with the lists of one-letter atoms of the PROGRAM written as double-quoted strings
 			cases, results = c.replay("engine", h.cases, replayOpts{opts: map[string]string{"strings": "1"}})
 			c.judge("engine", cases, results, func(cs, res map[string]J) string { in, _ := res["input"].(string); return in + " (strings)" })
+			// the binding environment as a persistent map: random histories of binds that branch from old versions (EnvPersist.tla,
+			// TLC simulation), every version compared with the model after every step
+			walks := "num=1500"
+			if c.tier == "thorough" {
+				walks = "num=40000"
+			}
+			ev := c.mcHolds("EnvPersist", "EnvPersist.cfg", tlcOpts{simulate: walks, depth: 46, workers: 1})
+			cases, results = c.replay("env", ev.cases, replayOpts{chunk: 64})
+			c.judge("env", cases, results, func(cs, res map[string]J) string { in, _ := res["input"].(string); return in })
 			n := 1200
 			if c.tier == "thorough" {
 				n = 20000
